@@ -525,3 +525,91 @@ Qed.
 Lemma mask_row_ignores_pad pad l l' y ls ys : y = pad ->
   mask_row pad (l :: ls) (y :: ys) = mask_row pad (l' :: ls) (y :: ys).
 Proof. intros ->. cbn [mask_row]. now rewrite Z.eqb_refl. Qed.
+
+(* ---------- _build_look_up_table for ANY vocabulary: the last occurrence wins ---------- *)
+Lemma np_write_one_nth (t : list Z) (p v : Z) (c : nat) : 0 <= p < len t ->
+  exists t', np_write t p [v] = Some t' /\ length t' = length t /\
+             nth c t' 0 = if Nat.eqb c (Z.to_nat p) then v else nth c t 0.
+Proof.
+  intros Hp. unfold np_write, len in *. cbn [length].
+  destruct ((0 <=? p) && (p + Z.of_nat 1 <=? Z.of_nat (length t))) eqn:E.
+  2:{ apply andb_false_iff in E. destruct E as [E|E]; [apply Z.leb_gt in E|apply Z.leb_gt in E]; lia. }
+  eexists. split; [reflexivity|].
+  replace (Z.to_nat (p + Z.of_nat 1)) with (S (Z.to_nat p)) by lia.
+  set (k := Z.to_nat p). assert (Hk : (k < length t)%nat) by lia.
+  split.
+  - rewrite !app_length, firstn_length, skipn_length. cbn [length]. lia.
+  - destruct (Nat.eqb c k) eqn:Ec.
+    + apply Nat.eqb_eq in Ec. subst c. rewrite app_nth2; rewrite firstn_length; [|lia].
+      replace (k - Nat.min k (length t))%nat with 0%nat by lia. reflexivity.
+    + apply Nat.eqb_neq in Ec. destruct (Nat.lt_ge_cases c k) as [L|G].
+      * rewrite app_nth1 by (rewrite firstn_length; lia). rewrite <- (firstn_skipn k t) at 2.
+        rewrite app_nth1 by (rewrite firstn_length; lia). reflexivity.
+      * rewrite app_nth2 by (rewrite firstn_length; lia). rewrite firstn_length.
+        replace (c - Nat.min k (length t))%nat with (S (c - S k)) by lia. cbn [app nth].
+        rewrite <- (firstn_skipn (S k) t) at 2. rewrite app_nth2 by (rewrite firstn_length; lia).
+        rewrite firstn_length. f_equal. lia.
+Qed.
+
+Lemma last_index_acc c : forall vs k acc,
+  last_index c vs k acc = match last_index c vs k None with Some i => Some i | None => acc end.
+Proof.
+  induction vs as [|v r IH]; intros k acc; cbn [last_index]; [reflexivity|].
+  rewrite (IH (k + 1) (if v =? c then Some k else acc)), (IH (k + 1) (if v =? c then Some k else None)).
+  destruct (last_index c r (k + 1) None); [reflexivity|]. destruct (v =? c); reflexivity.
+Qed.
+
+Lemma table_fold nr (c : nat) : forall vs (s : nat) (t : list Z),
+  Forall (fun v => 0 <= v < len t) vs ->
+  let r := fold_left (fun tbl ic => match np_write tbl (snd ic) [SH.lut_entry nr (fst ic)] with Some t' => t' | None => tbl end)
+                     (combine (map Z.of_nat (seq s (length vs))) vs) t in
+  length r = length t /\
+  nth c r 0 = match last_index (Z.of_nat c) vs (Z.of_nat s) None with Some i => nr + i | None => nth c t 0 end.
+Proof.
+  induction vs as [|v r IH]; intros s t F; cbn zeta.
+  - cbn. split; reflexivity.
+  - inversion F as [|? ? Hv Fr]; subst. cbn [length seq map combine fold_left fst snd].
+    destruct (np_write_one_nth t v (SH.lut_entry nr (Z.of_nat s)) c Hv) as [t' [W [Lt Nt]]]. rewrite W.
+    assert (Fr' : Forall (fun v0 => 0 <= v0 < len t') r) by (unfold len in *; rewrite Lt; exact Fr).
+    destruct (IH (S s) t' Fr') as [L1 N1]. split; [now rewrite L1|].
+    rewrite N1. cbn [last_index]. rewrite (last_index_acc (Z.of_nat c) r (Z.of_nat s + 1) (if v =? Z.of_nat c then Some (Z.of_nat s) else None)).
+    replace (Z.of_nat (S s)) with (Z.of_nat s + 1) by lia.
+    destruct (last_index (Z.of_nat c) r (Z.of_nat s + 1) None); [reflexivity|].
+    rewrite Nt. unfold SH.lut_entry.
+    destruct (v =? Z.of_nat c) eqn:E.
+    + apply Z.eqb_eq in E. subst v. rewrite Nat2Z.id, Nat.eqb_refl. reflexivity.
+    + apply Z.eqb_neq in E. destruct (Nat.eqb c (Z.to_nat v)) eqn:E2; [apply Nat.eqb_eq in E2; lia|reflexivity].
+Qed.
+
+Lemma nth_repeat_in {A} (x d : A) n c : (c < n)%nat -> nth c (repeat x n) d = x.
+Proof. revert c; induction n as [|n IH]; intros [|c] H; cbn; try lia; [reflexivity|apply IH; lia]. Qed.
+
+(* for every vocabulary (duplicates allowed) and every number of reserved labels: byte c gets
+   num_reserved + (index of its LAST occurrence), every other byte gets oov = num_reserved + len(vocab) *)
+Lemma table_last_occurrence_wins vocab nr (c : nat) : Forall (fun v => 0 <= v < 256) vocab -> (c < 256)%nat ->
+  nth c (build_table vocab nr) 0 =
+    match last_index (Z.of_nat c) vocab 0 None with Some i => nr + i | None => SH.lut_oov nr (len vocab) end /\
+  length (build_table vocab nr) = 256%nat.
+Proof.
+  intros F Hc. unfold build_table.
+  set (t0 := repeat (SH.lut_fill nr (len vocab)) (Z.to_nat SH.lut_table_size)).
+  assert (L0 : length t0 = 256%nat) by (subst t0; rewrite repeat_length; reflexivity).
+  assert (F0 : Forall (fun v => 0 <= v < len t0) vocab) by (unfold len; rewrite L0; exact F).
+  destruct (table_fold nr c vocab 0 t0 F0) as [L N]. split; [|now rewrite L].
+  rewrite N. change (Z.of_nat 0) with 0. destruct (last_index (Z.of_nat c) vocab 0 None); [reflexivity|].
+  subst t0. rewrite nth_repeat_in by (change (Z.to_nat SH.lut_table_size) with 256%nat; lia). reflexivity.
+Qed.
+
+(* ---------- preprocess_image normalisation ---------- *)
+Local Open Scope Q_scope.
+Lemma plain_normalisation :
+  Forall2 Qeq Gen_ds_cifar100_norm.plain_mean [4914 # 10000; 4822 # 10000; 4465 # 10000] /\
+  Forall2 Qeq Gen_ds_cifar100_norm.plain_std [2023 # 10000; 1994 # 10000; 2010 # 10000] /\
+  forall v m s, ~ s == 0 -> Gen_ds_cifar100_norm.plain_normalise v m s == (v / 255 - m) / s.
+Proof.
+  split; [|split].
+  - repeat constructor; reflexivity.
+  - repeat constructor; reflexivity.
+  - intros v m s Hs. unfold Gen_ds_cifar100_norm.plain_normalise. field. exact Hs.
+Qed.
+Local Close Scope Q_scope.
